@@ -306,7 +306,9 @@ async def run_pump(loop: S.VLoop, c, mw_factory=None):
         obs = {"plain": got.hex() or "-", "eof": eof, "tcpclosed": tcp.closed, "h": log["h"], "u": log["u"], "m": log["m"],
                "content": log["content"].hex() or "-", "mwargs": log["mwargs"], "order": log["order"], "exc": log["exc"], "pevs": pevs,
                "after_close_writes": len(tcp.after), "inner": inner is not None, "readlens": readlens,
-               "closed_at": tcp.closed_at}
+               "closed_at": tcp.closed_at,
+               # scripted completions (middleware / handler / upload) that were started and have not been completed by a `post` event
+               "pending": sorted(k for k, g in gates.items() if not g.done())}
         restore_wall()
         loop.set_exception_handler(lambda lp, cx: None)
         if inner is not None and getattr(inner, "timeout_handle", None):
